@@ -86,7 +86,7 @@ world.GLOBAL_VALUES.update({
 # ---- spec helpers shared by the contract files --------------------------------
 
 def key2(scope_e, sel_e):
-  return Key2.dt.mkt(scope_e, sel_e)
+  return Key2.mk(scope_e, sel_e)
 
 
 def join_slash(lst):
